@@ -74,8 +74,10 @@ New ==
   /\ Running /\ Ev.e = "new"
   /\ IF Ev.iter # 0 \/ Ev.vtag # 0 THEN Reject("C09", "new: a fresh solver does not hold the initial values")
      ELSE /\ iter' = 0 /\ incall' = FALSE /\ lastCall' = 0 /\ prevCall' = 0 /\ expectSave' = FALSE
+          /\ dir' = Ev.dir                     \* the directory this solver saves to (as the solver itself reports it)
+          /\ durable' = IF Ev.dir = dir THEN durable ELSE 0
           /\ Step
-          /\ UNCHANGED <<due, onDisk, durable, dir, freq, keep, isasync, crashed, restoredOlder, rfrom, savedp>>
+          /\ UNCHANGED <<due, onDisk, freq, keep, isasync, crashed, restoredOlder, rfrom, savedp>>
 
 Begin ==
   /\ Running /\ Ev.e = "begin"
@@ -181,6 +183,15 @@ Listing ==
           /\ Step
           /\ UNCHANGED <<iter, incall, durable, lastCall, prevCall, dir, freq, keep, isasync, crashed, expectSave, restoredOlder, rfrom, savedp>>
 
+(* the driver copied directory Ev.src to directory Ev.dir (a backup taken at rest): the copy holds what the   *)
+(* source held; restoring from it must read IT, whatever the configuration file inside says about directories *)
+Copy ==
+  /\ Running /\ Ev.e = "copy"
+  /\ onDisk' = [onDisk EXCEPT ![Ev.dir] = onDisk[Ev.src]]
+  /\ due' = [due EXCEPT ![Ev.dir] = onDisk[Ev.src]]
+  /\ Step
+  /\ UNCHANGED <<iter, incall, durable, lastCall, prevCall, dir, freq, keep, isasync, crashed, expectSave, restoredOlder, rfrom, savedp>>
+
 Crash ==      \* the process generation ended (killed, or simply exited)
   /\ Running /\ Ev.e = "crash"
   /\ iter' = -1 /\ incall' = FALSE /\ crashed' = Ev.killed /\ lastCall' = 0 /\ prevCall' = 0
@@ -252,7 +263,7 @@ Accept ==
   /\ UNCHANGED <<tid, i, iter, incall, due, onDisk, durable, lastCall, prevCall, dir, freq, keep, isasync,
                  crashed, expectSave, restoredOlder, rfrom, savedp>>
 
-Next == New \/ Begin \/ Sweep \/ SaveCall \/ SaveReturn \/ End \/ Waited \/ Listing \/ Crash
+Next == New \/ Begin \/ Sweep \/ SaveCall \/ SaveReturn \/ End \/ Waited \/ Listing \/ Copy \/ Crash
         \/ RestoreOK \/ RestoreFailed \/ SolveFailed \/ Accept
 Spec == Init /\ [][Next]_vars
 =============================================================================
